@@ -266,6 +266,14 @@ impl TransactionManager {
                 continue;
             }
             if other_info.state == TxState::Committed {
+                // Only a transaction that committed after we started can conflict
+                // (first committer wins); one that committed before is not concurrent.
+                if committed
+                    .get(other_tx)
+                    .is_some_and(|e| e.as_u64() <= our_start_epoch.as_u64())
+                {
+                    continue;
+                }
                 // Check if any of our writes conflict with their writes
                 for entity in &our_write_set {
                     if other_info.write_set.contains(entity) {
